@@ -94,11 +94,13 @@ def lslot (e : Expr) (q : LQ) : Option (List LQ) :=
     | q => some [q]
   else none
 
-/-- sites whose values are a single line (they may stand inside an `indent` filter block) -/
+/-- sites whose values are a single line in the sense of `str.splitlines` and that may therefore
+stand inside an `indent` filter block: the sites of the included Config templates
+(`Model/Sites.filterBlockSites`); any other site inside a filter block fails the check -/
 def loneLine (e : Expr) : Bool :=
-  match siteClass e with
-  | .identifier | .typeExpr | .reprValue | .baseExpr | .escapedKey | .commentLine => true
-  | _ => false
+  (match siteClass e with
+   | .identifier | .typeExpr | .reprValue | .baseExpr | .escapedKey | .commentLine => true
+   | _ => false) && Dcg.Model.Sites.filterBlockSites.contains e.unfilter.1.src
 
 def lexAuto : Auto := { Q := LQ, step := lstep, slot := lslot, oneLine := loneLine }
 
